@@ -460,7 +460,6 @@ func init() {
 		count(xr, "rSampleStream", "rstIncs", "for[0].body/for[0].body", "i++"),
 		ex(xr, "rSampleStream", "rstTrunc", "if[3].cond", "Bool", I("i", "k"), map[string]string{"i": "i", "k": "k"}),
 		sliceBound(mod, xr, "rSampleStream", "rstTruncHi", "out", 0, "hi", I("i", "k"), map[string]string{"i": "i", "k": "k"}, ""),
-		present(xr, "rSampleStream", "rstClosesSource", "", "defer s.Close()"),
 		present(xr, "rShuffle", "shuffleSwaps", "funclit[0].body", "a[i], a[j] = a[j], a[i]"),
 		ex(xr, "rShuffle", "shuffleN", "call[r.Shuffle][0].arg[0]", "Int", I("len"), map[string]string{"len(a)": "len"}),
 	)
